@@ -1,5 +1,6 @@
 import EdpVerif.Impl.Encode
 import EdpVerif.Impl.Decode
+import EdpVerif.Generated.Misc
 /-
 Model of crates/erltf_serde (ser.rs, de.rs, the `ElixirStruct` derive) over a universe of Rust types.
 
@@ -82,14 +83,18 @@ abbrev SRes := Except DeErr
 
 /-! ### atoms, text -/
 
-def sTrue : Bytes := [116, 114, 117, 101]
-def sFalse : Bytes := [102, 97, 108, 115, 101]
-def sNil : Bytes := [110, 105, 108]
-def sUndefined : Bytes := [117, 110, 100, 101, 102, 105, 110, 101, 100]
+/- The atom names, the struct key and the module prefix are the ones the translator reads out of ser.rs and
+erltf_serde_derive (Generated/Misc.lean, regenerated on every run); `Props/C15.lean` checks that de.rs reads the same ones. -/
+def sTrue : Bytes := Gen.C15_ATOM_TRUE
+def sFalse : Bytes := Gen.C15_ATOM_FALSE
+def sNil : Bytes := Gen.C15_ATOM_UNIT
+def sUndefined : Bytes := Gen.C15_ATOM_NONE
 /-- `__struct__` -/
-def sStructKey : Bytes := [95, 95, 115, 116, 114, 117, 99, 116, 95, 95]
+def sStructKey : Bytes := Gen.C15_EX_STRUCT_KEY
 /-- `Elixir.` -/
-def sElixirDot : Bytes := [69, 108, 105, 120, 105, 114, 46]
+def sElixirDot : Bytes := Gen.C15_EX_MODULE_PREFIX
+/-- `integer_term_as`: the largest number of significant digits of a big integer that is still read (regenerated from de.rs) -/
+def maxBigDigits : Nat := Gen.C15_BIG_MAX_DIGITS
 
 /-- `char::encode_utf8` (a `char` is a scalar value: < 0x110000 and not a surrogate) -/
 def utf8Enc (c : Nat) : Bytes :=
@@ -242,7 +247,7 @@ then `T::try_from(i128)` -/
 def deInt (k : IntTy) : Term → SRes Val
   | .int i => if k.inRange i then .ok (.int k i) else .error .err
   | .big neg d =>
-    if sigCount d > 8 then .error .err else
+    if sigCount d > maxBigDigits then .error .err else
     let mag : Int := (magVal (d.take (sigCount d)) : Nat)
     let v : Int := if neg then -mag else mag
     if k.inRange v then .ok (.int k v) else .error .err
@@ -463,6 +468,23 @@ def fromBytes (x : Ext) (ty : Ty) (b : Bytes) : SRes Val :=
   match decode x b with
   | .ok t => de ty t
   | .error _ => .error .err
+
+/-! ### 128-bit integers
+
+`serialize_i128` / `serialize_u128` and `deserialize_i128` / `deserialize_u128` are not overridden in ser.rs / de.rs
+(`Gen.C15_WIDE_OVERRIDDEN = []`, re-extracted on every run), so serde's provided methods answer: "i128 is not supported".
+Every compound serializer forwards the error of an element with `?`, so `to_term` of a value that contains a 128-bit
+integer anywhere is that error.  (They are therefore outside the universe `Ty`: nothing of that type is ever carried.) -/
+
+inductive WideTy where
+  | i128 | u128
+  deriving Repr, BEq, DecidableEq
+
+/-- `to_term(&x)` for `x: i128` / `u128` (whatever the value) -/
+def serWide (_ : WideTy) (_ : Int) : SRes Term := if Gen.C15_WIDE_OVERRIDDEN.isEmpty then .error .err else .ok .nil
+
+/-- `from_term::<i128>(t)` / `from_term::<u128>(t)` (whatever the term) -/
+def deWide (_ : WideTy) (_ : Term) : SRes Int := if Gen.C15_WIDE_OVERRIDDEN.isEmpty then .error .err else .ok 0
 
 /-! ### typing -/
 
